@@ -184,3 +184,23 @@ def declare(reg, eng):
     reg.contract("CounterTokenLock._release", params=["self"], types={"self": "CounterTokenLock"},
                  ensures=[("C09", "effect_count('token.release') == 1")],
                  modifies=["*.available", "*.total", "*.cache", "fs"])
+
+    # ---- C09: the watcher of a foreign holding gives the tokens back when the recorded job process is gone
+    eng.load("TokenFile.watch.run", "tokens.py", qualname="TokenFile.watch.run")
+    reg.klass("LocalConnector")
+    reg.klass("WProcess")
+    reg.contract("fasteners.InterProcessLock", params=["path"], fresh="Mutex", returns="Mutex", modifies=[]) if "fasteners.InterProcessLock" not in reg.contracts else None
+    reg.contract("LocalConnector.instance", params=[], fresh="LocalConnector", returns="LocalConnector", modifies=[])
+    reg.contract("json.loads", params=["s"], modifies=[], raises={"ValueError": {"when": []}})
+    reg.contract("Process.fromDefinition", params=["connector", "definition"], returns="opt:WProcess", modifies=[])
+    reg.contract("WProcess.wait", params=["self"], awaits=True, modifies=[], effect="process.wait")
+    reg.contracts["TokenFile.delete"]["effect"] = "tokenfile.delete"
+    reg.contract("TokenFile.watch.run", params=[], closure={"self": "TokenFile", "lockpath": "Path", "pidpath": "Path", "path": "Path"}, no_replay=True,
+                 # whatever the watcher finds (no pid file, a stale pid file whose process is gone, a live process that is then
+                 # waited for), it ends by deleting the token file it watches
+                 ensures=[("C09", "effect_count('tokenfile.delete') == 1"),
+                          ("C09", "effect_with_arg('tokenfile.delete', 0, self)"),
+                          ("C09", "implies(effect('process.wait'), effect_before('process.wait', 'tokenfile.delete'))")],
+                 raises={"ValueError": {"when": []}, "FileNotFoundError": {"when": []}},
+                 interference={"shared": ["$fs_kind", "$fs_text", "$fs_target"], "rely": [], "guarantee": []},
+                 modifies=None)
